@@ -9,6 +9,7 @@ use std::rc::Rc;
 #[derive(Clone, Copy, Debug, PartialEq, Eq)]
 pub(crate) enum Builtin {
     Type,
+    Typeof,
     Tostring,
     Tonumber,
     Select,
@@ -113,7 +114,7 @@ impl<'a, 'h> Interp<'a, 'h> {
         }
         self.next_fn = self.reg(g, "next", Next);
         if self.dialect == Dialect::Luau {
-            self.reg(g, "typeof", Type);
+            self.reg(g, "typeof", Typeof);
         }
         if has_require {
             self.reg(g, "require", Require);
@@ -290,6 +291,11 @@ impl<'a, 'h> Interp<'a, 'h> {
         use Builtin::*;
         match b {
             Noop => Ok(Vec::new()),
+            Typeof => {
+                super::note_dialect_event(0);
+                self.check_any(&args, 0, "typeof")?;
+                Ok(vec![Value::str(args[0].type_name().as_bytes())])
+            }
             Type => {
                 self.check_any(&args, 0, "type")?;
                 Ok(vec![Value::str(args[0].type_name().as_bytes())])
@@ -677,6 +683,7 @@ impl<'a, 'h> Interp<'a, 'h> {
             }
             if i < f.len() && f[i] == b'*' && self.dialect == Dialect::Luau {
                 i += 1;
+                super::note_dialect_event(1);
                 if argi >= args.len() {
                     return rt("missing argument to 'format'");
                 }
@@ -711,6 +718,14 @@ impl<'a, 'h> Interp<'a, 'h> {
                     out.extend_from_slice(&fmt::printf_float(v, conv, &sp));
                 }
                 b's' => {
+                    if !matches!(args[argi], Value::Str(_) | Value::Num(_)) {
+                        // Lua 5.1 (luaL_checklstring) accepts strings and numbers only; Luau converts
+                        // anything like tostring
+                        super::note_dialect_event(0);
+                        if self.dialect == Dialect::Lua51 {
+                            return rt(format!("bad argument #{} to 'format' (string expected, got {})", argi + 2, args[argi].type_name()));
+                        }
+                    }
                     let b = self.tostring_bytes(&args[argi])?;
                     out.extend_from_slice(&fmt::printf_str(&b, &sp));
                 }
